@@ -562,37 +562,42 @@ func sessKey(ss []standardprocess.VerifSession) []string {
 	return out
 }
 
-// checkReplyOwner: the share in a contribution reply is the one dealt to the authenticated sender.
+// checkReplyOwner: the share in a contribution reply is the one this instance dealt to the authenticated
+// sender (compared with the dealt shares of the generation as it was before the event), and nobody else's.
 func (r *sessRunner) checkReplyOwner(sender uint64, secret []byte, vvec [][]byte, preS *standardprocess.VerifSession) {
-	var sk bls.SecretKey
-	if err := sk.Deserialize(secret); err != nil {
-		// the zero share (sender not listed) does not deserialize; nothing was disclosed
+	if preS == nil {
+		return
+	}
+	mine, listed := preS.Dealt[sender]
+	if !listed {
+		// nothing was dealt to this sender: the reply must not carry anybody's share
+		for id, d := range preS.Dealt {
+			if sameBytes(d, secret) {
+				r.monFail = append(r.monFail, fmt.Sprintf("contribution reply to %d (not a participant) carries the share dealt to participant %d", sender, id))
+			}
+		}
 		r.stat("reply.share.none")
 		return
 	}
-	vv := make([]bls.PublicKey, len(vvec))
-	for i := range vvec {
-		if err := vv[i].Deserialize(vvec[i]); err != nil {
-			r.monFail = append(r.monFail, "contribution reply carries an unparsable verification vector")
-			return
-		}
-	}
-	listed := false
-	if preS != nil {
-		for _, id := range preS.Participants {
-			listed = listed || id == sender
-		}
-	}
-	if verifyShare(sender, &sk, vv) {
+	if sameBytes(mine, secret) {
 		r.stat("reply.share.for-sender")
-	} else if listed {
+	} else {
 		r.monFail = append(r.monFail, fmt.Sprintf("contribution reply to %d carries a share that is not the one dealt to %d", sender, sender))
 	}
-	if preS != nil {
-		for _, id := range preS.Participants {
-			if id != sender && verifyShare(id, &sk, vv) {
-				r.monFail = append(r.monFail, fmt.Sprintf("contribution reply to %d carries the share dealt to participant %d", sender, id))
-			}
+	for id, d := range preS.Dealt {
+		if id != sender && sameBytes(d, secret) {
+			r.monFail = append(r.monFail, fmt.Sprintf("contribution reply to %d carries the share dealt to participant %d", sender, id))
+		}
+	}
+	// the reply's vector is the instance's own vector as held before the event
+	if len(vvec) != len(preS.OwnVVec) {
+		r.monFail = append(r.monFail, fmt.Sprintf("contribution reply to %d carries %d vector entries, the instance holds %d", sender, len(vvec), len(preS.OwnVVec)))
+		return
+	}
+	for i := range vvec {
+		if !sameBytes(vvec[i], preS.OwnVVec[i]) {
+			r.monFail = append(r.monFail, fmt.Sprintf("contribution reply to %d carries a vector that is not the instance's own", sender))
+			return
 		}
 	}
 }
@@ -799,6 +804,52 @@ func cmdSessions(prop string, args []string) int {
 		if len(samples) < 2 {
 			samples = append(samples, strings.Join(res.descr[:min(len(res.descr), 6)], " ; "))
 		}
+	}
+	// simultaneous prepares for one name on one instance: exactly one may be accepted (whatever the
+	// order they are taken in, the model accepts the first and refuses the rest)
+	if !handler {
+		c, err := newTimedCluster(ctx, []uint64{1, 2, 3}, 1, time.Hour)
+		if err != nil {
+			return 2
+		}
+		n := c.Nodes[1]
+		rounds := 6
+		if cf.tier == "thorough" {
+			rounds = 60
+		}
+		eps := []*core.Endpoint{{ID: 1, Name: nodeName(1), Port: 10001}, {ID: 2, Name: nodeName(2), Port: 10002}, {ID: 3, Name: nodeName(3), Port: 10003}}
+		for r := 0; r < rounds; r++ {
+			name := fmt.Sprintf("Wallet 3/p%d", r)
+			const k = 8
+			errs := make([]error, k)
+			var wg sync.WaitGroup
+			start := make(chan struct{})
+			for i := 0; i < k; i++ {
+				wg.Add(1)
+				go func(i int) {
+					defer wg.Done()
+					<-start
+					errs[i] = n.Process.OnPrepare(ctx, uint64(1+i%3), name, []byte("pass"), 2, eps)
+				}(i)
+			}
+			close(start)
+			wg.Wait()
+			okN, inProg := 0, 0
+			for _, e := range errs {
+				switch {
+				case e == nil:
+					okN++
+				case errors.Is(e, standardprocess.ErrInProgress):
+					inProg++
+				}
+			}
+			stats["concurrent-prepare.rounds"]++
+			events += k
+			if okN != 1 || inProg != k-1 {
+				monFail = append(monFail, fmt.Sprintf("%d simultaneous prepares for %q: %d accepted, %d refused as in progress (exactly one may be accepted)", k, name, okN, inProg))
+			}
+		}
+		c.Close(ctx)
 	}
 	if handler {
 		mf, pairs, err := shareOwnershipSweep(ctx, cf.tier == "thorough")
